@@ -195,9 +195,7 @@ theorem stmt_branch {d : Nat} {kw colon : Token} {c : Expr} {tc : List Token} {b
   have hp2 : (S Y (some kw) (tc ++ colon :: (tb ++ (tt ++ rest))) false).p2.type ≠ cTypeEOF := by
     show (Y.peek (tc ++ colon :: (tb ++ (tt ++ rest)))).type ≠ _
     rw [peek_append hfc.1]
-    have := hfc.2.2
-    simp only [List.mem_cons, List.not_mem_nil, or_false] at this
-    rcases this with h | h | h <;> rw [h] <;> decide
+    exact (exprHeads_spec _ hfc.2).1
   have hcond : (v.ifFix && BrSt.init == BrSt.init ||
       decide ((S Y (some kw) (tc ++ colon :: (tb ++ (tt ++ rest))) false).p2.type ≠ cTypeEOF)) = true := by
     simp [hp2]
